@@ -260,4 +260,495 @@ theorem tls_pair_iff (cli : CliOpts) (file : RawConfig) :
     loadConfig cli file = .error .tlsPair ↔ ¬ (cli.tlsCert.isSome ↔ cli.tlsKey.isSome) :=
   (load_error_kind cli file).1
 
+/-! ## 4. password hashes: what validation accepts is exactly what `-g` can print
+
+`-g` prints `argon2_hash_password(pw)` = the `Display` of the 64-byte argon2 `Output` = the
+unpadded standard base64 text of those 64 bytes (`b64encode`).  `validate_password_hash`
+decodes with the same alphabet (base64ct rejects non-canonical trailing bits) and demands 64
+bytes.  (`B64Alphabet c`: `c` is in `A-Z`, `a-z`, `0-9`, `+`, `/`; defined in `C20Lemmas`.) -/
+
+/-- shape: 86 characters of the alphabet, the last one with its four low bits zero. -/
+theorem validPasswordHash_spec (s : Str) :
+    validPasswordHash s = true ↔
+      s.length = 86 ∧ (∀ c ∈ s, B64Alphabet c) ∧
+      ∃ c, s.getLast? = some c ∧ (c = 'A' ∨ c = 'Q' ∨ c = 'g' ∨ c = 'w') := by
+  unfold validPasswordHash
+  simp only [Bool.and_eq_true, beq_iff_eq, List.all_eq_true, isB64Char_iff, lastCanonical_iff,
+    canonical_last_char, and_assoc]
+
+/-- every text that `-g` can print (64 bytes, unpadded base64) passes validation. -/
+theorem hash_shape_of_64_bytes (bytes : List Nat) (hb : ∀ b ∈ bytes, b < 256)
+    (hl : bytes.length = 64) : validPasswordHash (b64encode bytes) = true := by
+  unfold validPasswordHash
+  simp only [Bool.and_eq_true, beq_iff_eq, List.all_eq_true]
+  refine ⟨⟨?_, b64encode_all bytes hb⟩, b64encode_lastCanonical bytes hb (by omega)⟩
+  rw [b64encode_length, hl]
+
+/-- decoding gives back the bytes: the hash stored in the file denotes exactly the argon2
+    output that `-g` computed (so verification compares against that very output). -/
+theorem b64_roundtrip (bytes : List Nat) (hb : ∀ b ∈ bytes, b < 256) :
+    b64decode (b64encode bytes) = some bytes := b64decode_b64encode bytes hb
+
+/-- two different outputs are never printed as the same text. -/
+theorem b64encode_injective (a b : List Nat) (ha : ∀ x ∈ a, x < 256) (hb : ∀ x ∈ b, x < 256)
+    (h : b64encode a = b64encode b) : a = b := by
+  have := b64_roundtrip a ha
+  rw [h, b64_roundtrip b hb] at this
+  exact (Option.some.inj this).symm
+
+/-- Exactness: the accepted texts are precisely the encodings of 64-byte strings. -/
+theorem validPasswordHash_iff_encoding (s : Str) :
+    validPasswordHash s = true ↔
+      ∃ bytes, bytes.length = 64 ∧ (∀ b ∈ bytes, b < 256) ∧ b64encode bytes = s := by
+  constructor
+  · intro h
+    unfold validPasswordHash at h
+    simp only [Bool.and_eq_true, beq_iff_eq, List.all_eq_true] at h
+    obtain ⟨⟨hl, ha⟩, hc⟩ := h
+    obtain ⟨bs, hbs⟩ := b64decode_isSome s ha hc (by omega)
+    obtain ⟨he, hb⟩ := b64encode_b64decode s bs hbs
+    refine ⟨bs, ?_, hb, he⟩
+    have := b64encode_length bs
+    rw [he, hl] at this
+    omega
+  · rintro ⟨bytes, hl, hb, rfl⟩
+    exact hash_shape_of_64_bytes bytes hb hl
+
+/-- the decoder of the model agrees with the predicate. -/
+theorem validPasswordHash_iff_decode (s : Str) :
+    validPasswordHash s = true ↔ ∃ bytes, b64decode s = some bytes ∧ bytes.length = 64 := by
+  rw [validPasswordHash_iff_encoding]
+  constructor
+  · rintro ⟨bytes, hl, hb, rfl⟩
+    exact ⟨bytes, b64_roundtrip bytes hb, hl⟩
+  · rintro ⟨bytes, hd, hl⟩
+    obtain ⟨he, hb⟩ := b64encode_b64decode s bytes hd
+    exact ⟨bytes, hl, hb, he⟩
+
+example : validPasswordHash (b64encode (List.replicate 64 255)) = true := by decide
+example : b64encode [0x14, 0xfb, 0x9c, 0x03, 0xd9, 0x7e] = str "FPucA9l+" := by decide
+example : b64encode [0x14, 0xfb, 0x9c, 0x03, 0xd9] = str "FPucA9k" := by decide
+example : b64encode [0x14, 0xfb, 0x9c, 0x03] = str "FPucAw" := by decide
+
+/-! ## 5. the settings govern behaviour
+
+All statements are about the protocol model's configuration record `Irc.Cfg`; the loaded
+configuration enters it through `RawConfig.toCfg` (which copies the fields), so together with
+`cli_overrides` they also cover "command-line options overriding the file"
+(`cli_governs_welcome`).
+
+**TLS.**  The model has no notion of transport: `step`, `handleLine`, `dispatch` and every
+handler take the configuration, a connection id and the parsed line — there is no `secure`
+parameter anywhere, which is the modelling decision that enabling TLS changes the transport
+only.  The single place where the Rust code lets the transport show is the 671 "is using a
+secure connection" line of WHOIS; `whoisOne` in `Irc/HRest.lean` models the plain transport and
+omits it.  This is a documented scope restriction, not a theorem. -/
+
+section governs
+open Reply
+
+/-- names, network and MOTD in the welcome burst: every line carries the server name as its
+    source; 001 names the network; 002, 004 and 375 name the server; 372 is the MOTD. -/
+theorem welcome_uses_config (cfg : Cfg) (cn : Conn) (m : Str) (x : Ctx) :
+    let out := (welcomeBurst cfg cn m x).direct
+    let client := cn.clientName
+    (':' :: (cfg.name ++ str " 001 " ++ client ++ str " :Welcome to the " ++ cfg.network ++
+        str " Network, " ++ cn.nick.getD [] ++ str "!~" ++ cn.name.getD [] ++ str "@" ++ cn.hostname))
+      ∈ out ∧
+    (':' :: (cfg.name ++ str " 002 " ++ client ++ str " :Your host is " ++ cfg.name ++
+        str ", running version " ++ pkgDash)) ∈ out ∧
+    serverLine cfg (RplMyInfo004 client cfg.name pkgDash (str "Oiorw") (str "Iabehiklmnopqstv") none)
+      ∈ out ∧
+    (':' :: (cfg.name ++ str " 375 " ++ client ++ str " :- " ++ cfg.name ++
+        str " Message of the day - ")) ∈ out ∧
+    serverLine cfg (RplMotd372 client cfg.motd) ∈ out ∧
+    (':' :: (cfg.name ++ str " 372 " ++ client ++ str " :" ++ cfg.motd)) ∈ out ∧
+    (∀ l ∈ out, l ∈ x.direct ∨ (':' :: cfg.name ++ [' ']) <+: l) := by
+  intro out client
+  have hout := welcomeBurst_direct cfg cn m x
+  have m001 : serverLine cfg (RplWelcome001 cn.clientName cfg.network (cn.nick.getD [])
+      (cn.name.getD []) cn.hostname) ∈ (welcomeBurst cfg cn m x).direct := by rw [hout]; simp
+  have m002 : serverLine cfg (RplYourHost002 cn.clientName cfg.name pkgDash)
+      ∈ (welcomeBurst cfg cn m x).direct := by rw [hout]; simp
+  have m004 : serverLine cfg (RplMyInfo004 cn.clientName cfg.name pkgDash (str "Oiorw")
+      (str "Iabehiklmnopqstv") none) ∈ (welcomeBurst cfg cn m x).direct := by rw [hout]; simp
+  have m375 : serverLine cfg (RplMotdStart375 cn.clientName cfg.name)
+      ∈ (welcomeBurst cfg cn m x).direct := by rw [hout]; simp
+  have m372 : serverLine cfg (RplMotd372 cn.clientName cfg.motd)
+      ∈ (welcomeBurst cfg cn m x).direct := by rw [hout]; simp
+  refine ⟨?_, ?_, m004, ?_, m372, ?_, ?_⟩
+  · have e : (':' :: (cfg.name ++ str " 001 " ++ client ++ str " :Welcome to the " ++ cfg.network ++
+        str " Network, " ++ cn.nick.getD [] ++ str "!~" ++ cn.name.getD [] ++ str "@" ++ cn.hostname))
+        = serverLine cfg (RplWelcome001 cn.clientName cfg.network (cn.nick.getD [])
+            (cn.name.getD []) cn.hostname) := by
+      simp [serverLine, RplWelcome001, str, client]
+    rw [e]; exact m001
+  · have e : (':' :: (cfg.name ++ str " 002 " ++ client ++ str " :Your host is " ++ cfg.name ++
+        str ", running version " ++ pkgDash))
+        = serverLine cfg (RplYourHost002 cn.clientName cfg.name pkgDash) := by
+      simp [serverLine, RplYourHost002, str, client]
+    rw [e]; exact m002
+  · have e : (':' :: (cfg.name ++ str " 375 " ++ client ++ str " :- " ++ cfg.name ++
+        str " Message of the day - "))
+        = serverLine cfg (RplMotdStart375 cn.clientName cfg.name) := by
+      simp [serverLine, RplMotdStart375, str, client]
+    rw [e]; exact m375
+  · have e : (':' :: (cfg.name ++ str " 372 " ++ client ++ str " :" ++ cfg.motd))
+        = serverLine cfg (RplMotd372 cn.clientName cfg.motd) := by
+      simp [serverLine, RplMotd372, str, client]
+    rw [e]; exact m372
+  · intro l hl
+    have hl' : l ∈ (welcomeBurst cfg cn m x).direct := hl
+    rw [hout] at hl'
+    simp only [List.mem_append, List.mem_cons, List.mem_map, List.not_mem_nil, or_false,
+      lusersLines] at hl'
+    have hp : ∀ t, (':' :: cfg.name ++ [' ']) <+: serverLine cfg t := by
+      intro t; exact ⟨t, by simp [serverLine]⟩
+    rcases hl' with (((h | h) | h) | h) | h
+    · exact Or.inl h
+    · rcases h with rfl | rfl | rfl | rfl <;> exact Or.inr (hp _)
+    · obtain ⟨toks, -, rfl⟩ := h; exact Or.inr (hp _)
+    · rcases h with rfl | rfl | rfl | rfl | rfl | rfl | rfl <;> exact Or.inr (hp _)
+    · rcases h with rfl | rfl | rfl | rfl <;> exact Or.inr (hp _)
+
+/-- ISUPPORT (005): `NETWORK=<network>` always; `CHANLIMIT=&#:n` and `MAXCHANNELS=n` exactly
+    when `max_joins = n` is configured (no such token otherwise, and no other value). -/
+theorem support_tokens_use_config (cfg : Cfg) :
+    (str "NETWORK=" ++ cfg.network) ∈ supportTokens cfg ∧
+    (∀ t ∈ supportTokens cfg, str "NETWORK=" <+: t → t = str "NETWORK=" ++ cfg.network) ∧
+    (∀ n, cfg.maxJoins = some n →
+      (str "CHANLIMIT=&#:" ++ natToStr n) ∈ supportTokens cfg ∧
+      (str "MAXCHANNELS=" ++ natToStr n) ∈ supportTokens cfg) ∧
+    (∀ t ∈ supportTokens cfg, str "CHANLIMIT=" <+: t →
+      ∃ n, cfg.maxJoins = some n ∧ t = str "CHANLIMIT=&#:" ++ natToStr n) ∧
+    (∀ t ∈ supportTokens cfg, str "MAXCHANNELS=" <+: t →
+      ∃ n, cfg.maxJoins = some n ∧ t = str "MAXCHANNELS=" ++ natToStr n) := by
+  refine ⟨by simp [supportTokens], ?_, ?_, ?_, ?_⟩
+  · intro t ht hp
+    simp only [supportTokens, List.mem_append, List.mem_cons, List.not_mem_nil, or_false] at ht
+    rcases ht with (((ht | ht) | ht) | ht) | ht
+    · exact ht
+    · cases hm : cfg.maxJoins with
+      | none => simp [hm] at ht
+      | some n =>
+        simp only [hm, List.mem_cons, List.not_mem_nil, or_false] at ht
+        rcases ht with rfl | rfl <;> simp [str] at hp
+    · rcases ht with rfl | rfl | rfl | rfl | rfl | rfl | rfl | rfl | rfl <;> simp [str] at hp
+    · rcases ht with rfl | rfl | rfl | rfl | rfl | rfl | rfl | rfl | rfl | rfl | rfl | rfl | rfl <;>
+        simp [str] at hp
+    · rcases ht with rfl | rfl <;> simp [str] at hp
+  · intro n hn
+    simp [supportTokens, hn]
+  · intro t ht hp
+    simp only [supportTokens, List.mem_append, List.mem_cons, List.not_mem_nil, or_false] at ht
+    rcases ht with (((ht | ht) | ht) | ht) | ht
+    · subst ht; simp [str] at hp
+    · cases hm : cfg.maxJoins with
+      | none => simp [hm] at ht
+      | some n =>
+        simp only [hm, List.mem_cons, List.not_mem_nil, or_false] at ht
+        rcases ht with rfl | rfl
+        · exact ⟨n, rfl, rfl⟩
+        · simp [str] at hp
+    · rcases ht with rfl | rfl | rfl | rfl | rfl | rfl | rfl | rfl | rfl <;> simp [str] at hp
+    · rcases ht with rfl | rfl | rfl | rfl | rfl | rfl | rfl | rfl | rfl | rfl | rfl | rfl | rfl <;>
+        simp [str] at hp
+    · rcases ht with rfl | rfl <;> simp [str] at hp
+  · intro t ht hp
+    simp only [supportTokens, List.mem_append, List.mem_cons, List.not_mem_nil, or_false] at ht
+    rcases ht with (((ht | ht) | ht) | ht) | ht
+    · subst ht; simp [str] at hp
+    · cases hm : cfg.maxJoins with
+      | none => simp [hm] at ht
+      | some n =>
+        simp only [hm, List.mem_cons, List.not_mem_nil, or_false] at ht
+        rcases ht with rfl | rfl
+        · simp [str] at hp
+        · exact ⟨n, rfl, rfl⟩
+    · rcases ht with rfl | rfl | rfl | rfl | rfl | rfl | rfl | rfl | rfl <;> simp [str] at hp
+    · rcases ht with rfl | rfl | rfl | rfl | rfl | rfl | rfl | rfl | rfl | rfl | rfl | rfl | rfl <;>
+        simp [str] at hp
+    · rcases ht with rfl | rfl <;> simp [str] at hp
+
+/-- … and every ISUPPORT token is sent in one of the 005 lines of the welcome burst. -/
+theorem welcome_sends_support_tokens (cfg : Cfg) (cn : Conn) (m : Str) (x : Ctx) :
+    ∀ t ∈ supportTokens cfg, ∃ toks : List Str, t ∈ toks ∧
+      (':' :: (cfg.name ++ str " 005 " ++ cn.clientName ++ str " " ++ joinWith [' '] toks ++
+        str " :are supported by this server")) ∈ (welcomeBurst cfg cn m x).direct := by
+  intro t ht
+  obtain ⟨toks, htoks, hmem⟩ :=
+    mem_chunks 10 (by decide) (sortStrs (supportTokens cfg)) t ((mem_sortStrs _ _).mpr ht)
+  refine ⟨toks, hmem, ?_⟩
+  rw [welcomeBurst_direct]
+  simp only [List.mem_append, List.mem_map]
+  left; left; right
+  refine ⟨toks, htoks, ?_⟩
+  simp [serverLine, RplISupport005, str]
+
+/-- command-line options reach the behaviour: after a successful load with `-n name` /
+    `-N network`, the welcome burst of the running server uses those values. -/
+theorem cli_governs_welcome (cli : CliOpts) (file c : RawConfig) (h : loadConfig cli file = .ok c)
+    (cn : Conn) (m : Str) (x : Ctx) :
+    c.toCfg.name = cli.name.getD file.name ∧ c.toCfg.network = cli.network.getD file.network ∧
+    c.toCfg.motd = file.motd ∧ c.toCfg.maxJoins = file.maxJoins ∧
+    c.toCfg.defaultUserModes = file.defaultUserModes ∧
+    (':' :: (cli.name.getD file.name ++ str " 001 " ++ cn.clientName ++ str " :Welcome to the " ++
+        cli.network.getD file.network ++ str " Network, " ++ cn.nick.getD [] ++ str "!~" ++
+        cn.name.getD [] ++ str "@" ++ cn.hostname)) ∈ (welcomeBurst c.toCfg cn m x).direct := by
+  have ho := cli_overrides cli file c h
+  have hw := (welcome_uses_config c.toCfg cn m x).1
+  have e1 : c.toCfg.name = c.name := rfl
+  have e2 : c.toCfg.network = c.network := rfl
+  rw [e1, e2, ho.1, ho.2.1] at hw
+  refine ⟨ho.1, ho.2.1, ?_, ?_, ?_, hw⟩
+  · exact ho.2.2.2.2.2.2.2.2.2.2.2.2.2.2.2.1
+  · exact ho.2.2.2.2.2.2.2.2.2.2.2.2.2.2.2.2.2.1
+  · exact ho.2.2.2.2.2.2.2.2.2.2.2.2.2.2.2.2.2.2
+
+/-- default user modes: on the success path of registration the user record inserted for
+    the nick has the configured default modes, `registered` additionally set for a predefined
+    user. -/
+theorem default_modes_applied (cfg : Cfg) (c : Nat) (x : Ctx) (nick : Str) (registered : Bool)
+    (hd : authDecision cfg (x.conn c) = .decided true registered)
+    (hn : (x.conn c).nick = some nick)
+    (hfree : Map.contains nick x.w.users = false)
+    (hs : (x.conn c).hasSender = true) (hq : (x.conn c).hasQuitSender = true) :
+    ∃ u, Map.lookup nick (authenticate cfg c x).w.users = some u ∧
+      u.modes = { cfg.defaultUserModes with
+                  registered := cfg.defaultUserModes.registered || registered } := by
+  unfold authenticate
+  simp only [hd, hn, hfree, hs, hq, if_true, Bool.not_false, Bool.not_true, Bool.or_self,
+    Bool.false_eq_true, if_false]
+  split <;>
+    simp [welcomeBurst_users, addUser_users]
+
+/-- `max_joins`: the JOIN decision loop never lets the channel count exceed `max_joins`
+    (if it was not already above), counts one per admitted channel, and admits nothing once
+    the limit is reached. -/
+theorem max_joins_enforced (cfg : Cfg) (w : World) (cn : Conn) (nick : Str) (inv : KSet)
+    (chans : List Str) (keys : List (Option Str)) (cnt : Nat) :
+    let r := joinDecide cfg w cn nick inv chans keys cnt
+    r.2.2 = cnt + (r.1.filter (·.1)).length ∧
+    (∀ mj, cfg.maxJoins = some mj → r.2.2 ≤ max cnt mj) ∧
+    (∀ mj, cfg.maxJoins = some mj → mj ≤ cnt → ∀ d ∈ r.1, d.1 = false) := by
+  intro r
+  have h := joinDecide_count cfg w cn nick inv chans keys cnt
+  refine ⟨h.1, h.2, ?_⟩
+  intro mj hmj hle d hd
+  have h1 := h.1
+  have h2 := h.2 mj hmj
+  have hz : (r.1.filter (·.1)).length = 0 := by
+    show ((joinDecide cfg w cn nick inv chans keys cnt).1.filter (·.1)).length = 0
+    omega
+  have hnil : r.1.filter (·.1) = [] := List.eq_nil_of_length_eq_zero hz
+  cases hb : d.1
+  · rfl
+  · have hm : d ∈ r.1.filter (·.1) := List.mem_filter.mpr ⟨hd, hb⟩
+    rw [hnil] at hm; cases hm
+
+/-- the channel record created at start-up for a configured channel: topic without author,
+    the configured flags / key / limit / lists, the rank lists moved to `defaultModes`, nobody
+    inside, marked preconfigured. -/
+def preconfiguredChannel (ch : ChanCfg) : Channel :=
+  { topic := ch.topic.map (fun t => { topic := t, nick := [] })
+    modes := { ch.modes with operators := [], halfOperators := [], voices := [], founders := [],
+                             protecteds := [] }
+    defaultModes := { operators := ch.modes.operators, halfOperators := ch.modes.halfOperators,
+                      voices := ch.modes.voices, founders := ch.modes.founders,
+                      protecteds := ch.modes.protecteds }
+    users := []
+    preconfigured := true }
+
+/-- predefined channels: the initial world contains exactly the configured channel names
+    (the last entry wins for a repeated name), each with the configured topic and modes. -/
+theorem predefined_channels (cfg : Cfg) (k : Str) :
+    Map.lookup k (World.init cfg).channels =
+      (cfg.channels.reverse.find? (fun ch => ch.name == k)).map preconfiguredChannel := by
+  unfold World.init
+  simp only
+  rw [lookup_foldl_insert (fun c : ChanCfg => c.name)]
+  cases cfg.channels.reverse.find? (fun ch => ch.name == k) <;> simp [preconfiguredChannel]
+
+theorem predefined_channel_exists (cfg : Cfg) (k : Str) :
+    Map.contains k (World.init cfg).channels = true ↔ ∃ ch ∈ cfg.channels, ch.name = k := by
+  unfold Map.contains
+  rw [predefined_channels]
+  simp only [Option.isSome_map, List.find?_isSome, List.mem_reverse, beq_iff_eq]
+
+/-- predefined users: a connection whose USER name is configured is checked against THAT
+    user's mask and password (falling back to the server password only when the user has
+    none) and becomes `registered`; an unknown name is checked against the server password
+    and is not `registered`. -/
+theorem predefined_user_governs (cfg : Cfg) (cn : Conn) (nick name : Str)
+    (hc : cn.capsNeg = false) (hn : cn.nick = some nick) (hu : cn.name = some name) :
+    (∀ u mask, cfg.findUser name = some u → u.mask = some mask →
+        matchWildcard mask cn.source = false → authDecision cfg cn = .maskMismatch) ∧
+    (∀ u p, cfg.findUser name = some u → (∀ mask, u.mask = some mask →
+        matchWildcard mask cn.source = true) → u.password = some p →
+        authDecision cfg cn =
+          .decided (match cn.password with | some e => cfg.pwOk e p | none => false) true) ∧
+    (∀ u, cfg.findUser name = some u → (∀ mask, u.mask = some mask →
+        matchWildcard mask cn.source = true) → u.password = none → cfg.password = none →
+        authDecision cfg cn = .decided true true) ∧
+    (cfg.findUser name = none → ∀ p, cfg.password = some p →
+        authDecision cfg cn =
+          .decided (match cn.password with | some e => cfg.pwOk e p | none => false) false) ∧
+    (cfg.findUser name = none → cfg.password = none →
+        authDecision cfg cn = .decided true false) := by
+  refine ⟨?_, ?_, ?_, ?_, ?_⟩
+  · intro u mask hf hm hw
+    simp [authDecision, hc, hn, hu, hf, hm, hw]
+  · intro u p hf hm hp
+    cases hmask : u.mask with
+    | none => simp [authDecision, hc, hn, hu, hf, hmask, hp]; cases cn.password <;> rfl
+    | some mask =>
+      simp [authDecision, hc, hn, hu, hf, hmask, hm mask hmask, hp]; cases cn.password <;> rfl
+  · intro u hf hm hp hsp
+    cases hmask : u.mask with
+    | none => simp [authDecision, hc, hn, hu, hf, hmask, hp, hsp]
+    | some mask => simp [authDecision, hc, hn, hu, hf, hmask, hm mask hmask, hp, hsp]
+  · intro hf p hp
+    simp [authDecision, hc, hn, hu, hf, hp]; cases cn.password <;> rfl
+  · intro hf hp
+    simp [authDecision, hc, hn, hu, hf, hp]
+
+/-- predefined operators: OPER with a name that is not configured is refused with 491 and
+    changes nothing; with a configured name, the matching password and (if any) mask, the
+    user becomes an operator. -/
+theorem predefined_operator_governs (cfg : Cfg) (c : Nat) (name password nick : Str) (x : Ctx)
+    (hn : (x.conn c).nick = some nick) :
+    (cfg.findOper name = none →
+      processOper cfg c name password x = x.reply cfg (ErrNoOperHost491 (x.conn c).clientName)) ∧
+    (∀ op user, cfg.findOper name = some op → Map.lookup nick x.w.users = some user →
+      cfg.pwOk password op.password = true →
+      (∀ mask, op.mask = some mask → matchWildcard mask (x.conn c).source = true) →
+      Map.lookup nick (processOper cfg c name password x).w.users =
+        some { user with modes := { user.modes with oper := true } }) ∧
+    (∀ op user, cfg.findOper name = some op → Map.lookup nick x.w.users = some user →
+      cfg.pwOk password op.password = false →
+      processOper cfg c name password x =
+        x.reply cfg (ErrPasswdMismatch464 (x.conn c).clientName)) := by
+  refine ⟨?_, ?_, ?_⟩
+  · intro hf
+    simp [processOper, hn, hf]
+  · intro op user hf hu hp hm
+    cases hmask : op.mask with
+    | none =>
+      simp only [processOper, hn, hf, hu, hp, hmask, Bool.not_true, Bool.false_eq_true, if_false,
+        Ctx.reply_w, Ctx.modifyW_w]
+      split <;> simp
+    | some mask =>
+      simp only [processOper, hn, hf, hu, hp, hmask, hm mask hmask, Bool.not_true,
+        Bool.false_eq_true, if_false, Ctx.reply_w, Ctx.modifyW_w]
+      split <;> simp
+  · intro op user hf hu hp
+    simp [processOper, hn, hf, hu, hp]
+
+end governs
+
+/-! ## 6. examples (`decide`), on the configuration of the Rust unit test
+(`Irc.Config.sample` / `sampleCli` = first file and `cli2` of `test_mainconfig_new`) -/
+
+example : loadConfig {} sample = .ok sample := by decide
+example : renderResult (loadConfig {} sample)
+    = str "Ok irci.localhost IRCInetwork 6667 127.0.0.1 false true" := by decide
+example : renderResult (loadConfig sampleCli sample)
+    = str "Ok ircer.localhost SomeNetwork 6668 192.168.1.4 true true" := by decide
+example : (loadConfig sampleCli sample).toOption.map (·.tls)
+    = some (some (str "some_cert.crt", str "some_key.crt")) := by decide
+-- one of certificate / key only: error before validation
+example : loadConfig { sampleCli with tlsKey := none } sample = .error .tlsPair := by decide
+example : loadConfig { tlsKey := some (str "k"), name := some (str "nodot") } sample
+    = .error .tlsPair := by decide
+-- server name without a dot
+example : loadConfig {} { sample with name := str "ircilocalhost" }
+    = .error (.validation (str "name")) := by decide
+-- `-n nodot`: the override happens before validation
+example : loadConfig { name := some (str "nodot") } sample
+    = .error (.validation (str "name")) := by decide
+-- `-n` repairs a bad name in the file
+example : (loadConfig { name := some (str "a.b") } { sample with name := str "bad" }).toOption.map
+    (·.name) = some (str "a.b") := by decide
+example : loadConfig {} { sample with password := some (str "xxxxxxxxxx") }
+    = .error (.validation (str "password")) := by decide
+example : loadConfig {} { sample with operators := [{ name := str "matis.zpaki", password := hashB }] }
+    = .error (.validation (str "operators[0].name")) := by decide
+example : loadConfig {} { sample with operators := [{ name := str "matiszpaki", password := str "xxxxxxx" }] }
+    = .error (.validation (str "operators[0].password")) := by decide
+example : loadConfig {} { sample with users := [{ name := str "lucas", nick := str "luckboy", password := some (str "xxxxxxxx") }] }
+    = .error (.validation (str "users[0].password")) := by decide
+example : loadConfig {} { sample with users := [{ name := str "lucas", nick := str "luckboy", password := some (str "xxx") }] }
+    = .error (.validation (str "users[0].password")) := by decide
+example : loadConfig {} { sample with users := [{ name := str "lu cas", nick := str "luckboy" }] }
+    = .error (.validation (str "users[0].name")) := by decide
+example : loadConfig {} { sample with users := [{ name := str "lucas", nick := str "#luckboy" }] }
+    = .error (.validation (str "users[0].nick")) := by decide
+example : loadConfig {} { sample with channels := [{ name := str "#channel1" }, { name := str "^channel2" }] }
+    = .error (.validation (str "channels[1].name")) := by decide
+example : loadConfig {} { sample with channels := [{ name := str "#cha:nnel2" }] }
+    = .error (.validation (str "channels[0].name")) := by decide
+-- nick of 201 bytes: passes `validate_username`, fails `validate_nicknames`
+set_option maxRecDepth 4000 in
+example : loadConfig {} { sample with users := [{ name := str "lucas", nick := List.replicate 201 'a' }] }
+    = .error .nickLength := by decide
+set_option maxRecDepth 4000 in
+example : (loadConfig {} { sample with users := [{ name := str "lucas", nick := List.replicate 200 'a' }] }).toOption.isSome
+    = true := by decide
+-- the length is in bytes: 101 two-byte characters = 202 bytes
+example : loadConfig {} { sample with users := [{ name := str "lucas", nick := List.replicate 101 'é' }] }
+    = .error .nickLength := by decide
+
+
+/-! ### the hypotheses of the theorems above are satisfiable, the conclusions informative -/
+
+-- `load_valid` / `load_complete` / `cli_overrides`
+example : Valid small := (valid_iff small).mpr ⟨by decide, by decide⟩
+example : loadConfig { name := some (str "x.y"), port := some 7000 } small
+    = .ok { small with name := str "x.y", port := 7000 } := by decide
+-- `cli_name_is_validated`
+example : loadConfig { name := some (str "nodot") } small = .error (.validation (str "name")) := by
+  decide
+-- `tls_pair`: cert only, key only; and the file's `[tls]` section does not help
+example : loadConfig { tlsCert := some (str "c") } small = .error .tlsPair := by decide
+example : loadConfig { tlsKey := some (str "k") } { small with tls := some (str "a", str "b") }
+    = .error .tlsPair := by decide
+example : (loadConfig { tlsKey := some (str "k"), tlsCert := some (str "c") } small).toOption.map (·.tls)
+    = some (some (str "c", str "k")) := by decide
+
+/-- a connection that has sent NICK and USER, in an otherwise empty server. -/
+def demoCtx : Ctx :=
+  { w := { conns := [{ (Conn.new 1 (str "h")) with
+    nick := some (str "al"), name := some (str "u"), source := str "al!~u@h" }] } }
+
+def demoCfg : Cfg :=
+  { name := str "srv.x", network := str "Net", motd := str "hi", maxJoins := some 1,
+    defaultUserModes := { invisible := true, wallops := true },
+    users := [{ name := str "u2", nick := str "n2", password := some (str "pw"), mask := none }],
+    channels := [{ name := str "#pre", topic := some (str "T"), modes := { moderated := true, operators := [str "al"] } }] }
+
+-- `default_modes_applied`: hypotheses hold here, and the inserted user has `+iw`
+example : authDecision demoCfg (demoCtx.conn 1) = .decided true false := by decide
+example : (Map.lookup (str "al") (authenticate demoCfg 1 demoCtx).w.users).map (·.modes)
+    = some { invisible := true, wallops := true } := by decide
+-- predefined user `u2`: password `pw` required, then `+r`
+example : authDecision demoCfg { demoCtx.conn 1 with name := some (str "u2") } = .decided false true := by
+  decide
+example : authDecision demoCfg { demoCtx.conn 1 with name := some (str "u2"), password := some (str "pw") }
+    = .decided true true := by decide
+-- `welcome_uses_config`: the first two lines
+example : ((welcomeBurst demoCfg (demoCtx.conn 1) (str "+iw") demoCtx).direct.take 2)
+    = [str ":srv.x 001 al :Welcome to the Net Network, al!~u@h",
+       str ":srv.x 002 al :Your host is srv.x, running version irc-harness-0.1.0"] := by decide
+-- `support_tokens_use_config`
+example : str "MAXCHANNELS=1" ∈ supportTokens demoCfg ∧ str "CHANLIMIT=&#:1" ∈ supportTokens demoCfg ∧
+    str "NETWORK=Net" ∈ supportTokens demoCfg := by decide
+example : ¬ (supportTokens {}).any (fun t => (str "MAXCHANNELS=").isPrefixOf t) := by decide
+-- `max_joins_enforced`: limit 1, two new channels requested: the second is refused
+example : (joinDecide demoCfg {} (demoCtx.conn 1) (str "al") [] [str "#a", str "#b"] [] 0).1
+    = [(true, true), (false, true)] := by decide
+-- `predefined_channels`
+example : (Map.lookup (str "#pre") (World.init demoCfg).channels).map
+      (fun c => (c.topic.map (·.topic), c.modes.moderated, c.defaultModes.operators, c.users.length, c.preconfigured))
+    = some (some (str "T"), true, [str "al"], 0, true) := by decide
+
 end Irc.C20
